@@ -2,7 +2,7 @@
 From Coq Require Import List ZArith Bool Permutation Sorted.
 From Coq.Strings Require Import Byte.
 Import ListNotations.
-From SV Require Import Text G_gff C02_Model C02_Lemmas C02_Order C02_Line C02_Score C02_Feat C02_Read C02_Fix C02_Cycle C02_Cycle2 C02_Harness C02_Lenient C02_Third.
+From SV Require Import Text G_gff C02_Model C02_Lemmas C02_Order C02_Line C02_Score C02_Feat C02_Read C02_Fix C02_Cycle C02_Cycle2 C02_Harness C02_Lenient C02_Third C02_Xsv.
 Local Open Scope Z_scope.
 
 (* percent-encoding is undone exactly, for every byte string *)
@@ -203,6 +203,72 @@ Theorem C02_xsv_list : forall ks x, xsel ks = true -> forallb loc_valid x = true
 Proof. exact xsv_list. Qed.
 Print Assumptions C02_xsv_list.
 
+(* ---- TSV/CSV at the text level (round 7): FeatureList.tolists/topandas, to_csv, read_csv, frompandas, xsv.py ---- *)
+(* keys given as ONE string select the columns their names select: str.split() on any white space, leading / trailing included *)
+Theorem C02_keys_str : forall g0 w0 r tail, forallb is_ws g0 = true -> word w0 = true -> forallb gap_ok r = true ->
+  forallb (fun p => word (snd p)) r = true -> forallb is_ws tail = true ->
+  keys_of (KStr (g0 ++ w0 ++ spaced r ++ tail)) = keys_of (KList (w0 :: map snd r)).
+Proof. exact keys_str. Qed.
+Print Assumptions C02_keys_str.
+
+Theorem C02_keys_str_words : forall s, forallb word (keys_of (KStr s)) = true.
+Proof. exact py_split_words. Qed.
+Print Assumptions C02_keys_str_words.
+
+(* the written table read cell by cell gives back the column names and every cell: ANY separator that occurs in no name / cell *)
+Theorem C02_table_text : forall sep names x, byte_eqb sep x0a = false -> names <> [] -> forallb (clean sep) names = true ->
+  forallb (cells_clean sep names) x = true ->
+  xsv_rows sep (write_xsv sep names x) = Some (names, map (nrow names) x).
+Proof. exact table_text. Qed.
+Print Assumptions C02_table_text.
+
+(* one written row -> one record: range, strand, type when the selection allows it; KeyError otherwise *)
+Theorem C02_xrecord_total : forall ft names f, loc_valid f = true -> strand_ok (feat_strand_m f) = true ->
+  xrecord_s ft names (nrow names f) =
+  if sel_ok names then match xspec ft names f with (ty, a, b, sd) => XRec ty a b sd end else XKey.
+Proof. exact xrecord_total. Qed.
+Print Assumptions C02_xrecord_total.
+
+(* MAIN (TSV/CSV): for EVERY list of column names (any order, any subset, repetitions, foreign columns), every separator and every
+   feature list the written text is read back - one record per feature with its 0-based start, half-open stop, its strand if
+   selected ('?' otherwise), its type if selected or supplied through ftype - exactly when the names hold start and stop, or len
+   and one of them; otherwise reading a non-empty table raises KeyError *)
+Theorem C02_xsv_total : forall sep ft names x, byte_eqb sep x0a = false -> names <> [] -> forallb (clean sep) names = true ->
+  forallb (cells_clean sep names) x = true -> forallb feat_valid x = true ->
+  read_xsv sep ft (write_xsv sep names x) =
+  if sel_ok names then inr (map (xspec ft names) x) else match x with [] => inr [] | _ => inl key_error end.
+Proof. exact xsv_total. Qed.
+Print Assumptions C02_xsv_total.
+
+(* the same on the boolean domain flags that run_C02_xsvw evaluates for every generated case: the separator is no digit, sign,
+   strand symbol, quote or line break and is in none of the selected texts *)
+Theorem C02_xsv_total_dom : forall sep ft names x, sep_ok sep = true -> names_ok sep names = true -> names <> [] ->
+  forallb (feat_clean sep names) x = true ->
+  read_xsv sep ft (write_xsv sep names x) =
+  if sel_ok names then inr (map (xspec ft names) x) else match x with [] => inr [] | _ => inl key_error end.
+Proof. exact xsv_total_dom. Qed.
+Print Assumptions C02_xsv_total_dom.
+
+(* frompandas on ANY record (tables from elsewhere): KeyError iff the names hold neither pair, whatever the cells are *)
+Theorem C02_xrecord_errors : forall ft names row, xrecord_s ft names row = XKey <-> sel_ok names = false.
+Proof. exact xrecord_errors. Qed.
+Print Assumptions C02_xrecord_errors.
+
+Theorem C02_len_ignored : forall names row, nhas n_start names = true -> nhas n_stop names = true ->
+  xrange names row = Some (getZ n_start names row, getZ n_stop names row).
+Proof. exact len_ignored. Qed.
+Print Assumptions C02_len_ignored.
+
+Theorem C02_xrecord_table : forall ft names row ty a b sd, xrecord_s ft names row = XRec ty a b sd ->
+  a < b /\ strand_ok sd = true /\ ty = xtype ft names row
+  /\ (nhas n_start names = true -> getZ n_start names row = Some a)
+  /\ (nhas n_stop names = true -> getZ n_stop names row = Some b)
+  /\ (nhas n_stop names = false -> exists n, getZ n_len names row = Some n /\ b = a + n)
+  /\ (nhas n_start names = false -> exists n, getZ n_len names row = Some n /\ a = b - n)
+  /\ (if nhas n_strand names then ncell_of n_strand names row = Some [sd] else sd = "?"%byte).
+Proof. exact xrecord_table. Qed.
+Print Assumptions C02_xrecord_table.
+
 (* region excluded from the round-trip clauses, with its witness: open finding F39 (firstloc_overrides) *)
 Theorem C02_firstloc_overrides_refuted :
   exists x, wf_C02 x = true /\ forallb normalised x = false /\ fix2 x = false /\ roundtrip_ok x = false.
@@ -251,3 +317,14 @@ Proof. exact (conj eq_refl (conj eq_refl eq_refl)). Qed.
 
 Example C02_witness_xsv : xsel [KStrand; KLen; KType; KStop] = true /\ xsel [KType; KStart] = false.
 Proof. exact (conj eq_refl eq_refl). Qed.
+
+(* non-vacuity of the TSV/CSV theorems: a nested minus-strand feature and a single-location one, columns in a scrambled order with
+   a repeated and a foreign column, separator '|' ; the selection without stop/len is the KeyError side *)
+Example C02_witness_xsv_total :
+  sep_ok "|"%byte = true /\ names_ok "|"%byte ex_names = true /\ forallb (feat_clean "|"%byte ex_names) ex_table = true /\
+  sel_ok ex_names = true /\ sel_ok [k_type; n_start; n_strand] = false /\
+  option_map Bstr (Some (write_xsv "|"%byte ex_names ex_table)) = Some ex_table_text.
+Proof. exact ex_table_ok. Qed.
+
+Example C02_witness_keys_str : keys_of (KStr (bs " type  start len "%bs)) = [k_type; n_start; n_len].
+Proof. exact eq_refl. Qed.
